@@ -10,6 +10,7 @@ import (
 	"golang.org/x/tools/go/ssa"
 
 	"mvdan.cc/garble/internal/symx"
+	ev "mvdan.cc/garble/internal/symxeval"
 )
 
 // C03 (2-safety): the same code on the same inputs and the same seeded draw
@@ -84,6 +85,5 @@ func H_C03_hardening_deterministic() {
 	symx.RewindDraws()
 	out2 := applyOnce(h, n, needed(n))
 	symx.Reach("twice")
-	symx.Observe("same", out1 == out2)
-	symx.Assert(out1 == out2, "the emitted hardening code depends only on the seeded random source")
+	symx.Assert(ev.SameText(out1, out2), "the emitted hardening code depends only on the seeded random source")
 }
